@@ -105,4 +105,33 @@ PROPS["C12"] = {
     "assumptions": TRUSTED[:1],
 }
 
+PROPS["C02"] = {
+    "level": "fault_enumeration",
+    "technique": "runtime fault-injection monitor: per-position mutants (value replacement, element deletion) of accepted proofs run through the real StarkProof::verify in crash-isolated workers; acceptance of any mutant is the refuting observation; every run is also checked by the transcript trace monitor",
+    "rule": "for each accepted honest proof (quick: one per shipped build chosen by seed; thorough: all 26): every vector loses its first, last and one middle element; every scalar leaf of the serde form (quick: <=14 sampled leaves per position class; thorough: all ~3k leaves) is replaced by 2 (quick) / 3 (thorough) different values out of {+1, -1, flipped bit 0, flipped bit 200, random, 0, 1}; a mutant counts only if it deserialises and differs from the original; appended trailing elements are recorded without verdict; distinct = distinct (proof, position, value)",
+    "legs": [full("tamper", "tamper", t=FULL_SHIPPED, sharded=True, timeout={"quick": 1500, "thorough": 14000})],
+    "required_counters": ["originals_accepted", "mutants_rejected"],
+    "min_evaluations": {"quick": 300, "thorough": 20000},
+    "assumptions": TRUSTED + ["mutants are verified at the original proof's security level", "a panicking mutant counts as not accepted (panics are C18's subject)"],
+}
+
+PROPS["C18"] = {
+    "level": "fault_enumeration",
+    "technique": "runtime crash monitor: structural malformations of accepted proofs run through the real StarkProof::verify and the three standalone validation entry points under a panic hook + catch_unwind, in crash-isolated worker processes with an address-space limit and CPU watchdog; panics are bucketed by (file, source line text, message class)",
+    "rule": "for each honest proof (quick: one per shipped build; thorough: all 26): every vector truncated to 0/1/len-1, extended, rotated; same-typed vectors swapped; every config / public-input number (and a sample of all other numbers) set to each of {0,1,2^16,2^32,2^40,2^63,2^64-1,2^64,2^128,2^250,p-2,p-1}; typed group edits (hostile value with dependent fields re-declared consistently); random pairs and triples of these; a case is non-trivial when the edited proof is well-typed and differs from the original",
+    "legs": [full("malformed", "malformed", t=FULL_SHIPPED, sharded=True, timeout={"quick": 1500, "thorough": 14000})],
+    "required_counters": ["outcome.error_value", "standalone.StarkConfig::validate"],
+    "min_evaluations": {"quick": 1000, "thorough": 50000},
+    "assumptions": TRUSTED + ["well-typed = deserialises into the verifier's StarkProof type"],
+}
+
+PROPS["C10"] = {
+    "level": "exploration",
+    "technique": "runtime differential monitor: real generate_queries / queries_to_points vs a sponge-model recomputation (sort+dedup of (Poseidon mod 2^128) mod B, 3*w^bitreverse(i)); recorded Stone proofs: derived indices vs the prover's logged indices and decommitted rows",
+    "rule": "cases = (transcript digest, counter, query count n, domain 2^e) for e in 1..=64, n in {1,2,3,7,8,48,64,200,B-1,B,B+1 (<=4096)}, 8 (quick) / 50 (thorough) transcript states each; output must equal the model sequence (hence in range, strictly increasing, at most n long, deterministic), the transcript counter must advance by n; points compared for the first indices plus 0, B/2, B-1 under a random split of e into trace and coset exponents; every case is non-trivial",
+    "legs": [full("queries", "queries", q=FULL_ONE, t=FULL_ONE), full("recorded", "recorded", t=FULL_SHIPPED)],
+    "required_counters": ["sequence_equals_model", "collisions_observed", "points_compared", "query_sets_equal_prover_log", "query_sets_equal_decommitted_rows"],
+    "assumptions": TRUSTED[:1],
+}
+
 NOT_APPLICABLE = {}
